@@ -323,15 +323,13 @@ fn plan(which: Which, m: &Measures) -> Vec<(Lim, bool)> {
 }
 
 /// Run the plan; Err = first deviation from the statement.
-fn enforce(which: &[Which], m: &Measures, safety_only: bool, run: &dyn Fn(Lim) -> Outcome) -> Result<u32, String> {
-    let mut runs = 0;
+fn enforce(which: &[Which], m: &Measures, safety_only: bool, run: &dyn Fn(Lim) -> Outcome) -> Result<(), String> {
     for w in which {
         for (lim, must_reject) in plan(*w, m) {
             if safety_only && !must_reject {
                 continue;
             }
             let o = run(lim);
-            runs += 1;
             if must_reject && !o.rejected() {
                 return Err(format!("limit {:?} is below the measure but the request was not rejected before execution: {} resolver(s) started, errors {:?}", lim, o.started, o.errors));
             }
@@ -340,7 +338,7 @@ fn enforce(which: &[Which], m: &Measures, safety_only: bool, run: &dyn Fn(Lim) -
             }
         }
     }
-    Ok(runs)
+    Ok(())
 }
 
 fn show_m(m: &Measures) -> String {
@@ -617,9 +615,9 @@ fn run_dyn(p: &Prepared, sch: &Sch, world: &World, lim: Lim) -> Result<Outcome, 
 
 const ALL3: [Which; 3] = [Which::Depth, Which::Complexity, Which::Nesting];
 
-fn verdict(rendered: String, r: Result<u32, String>) -> Case {
+fn verdict(rendered: String, r: Result<(), String>) -> Case {
     match r {
-        Ok(_) => Case::pass(rendered),
+        Ok(()) => Case::pass(rendered),
         Err(why) => Case::fail(rendered, why),
     }
 }
@@ -681,9 +679,7 @@ pub fn run(ctx: &mut Ctx) {
             Ok(p) if p.m.complexity.lo != want => Case::fail(text, format!("HARNESS: reference complexity {} differs from the hand-computed {}", p.m.complexity.lo, want)),
             Ok(p) => verdict(format!("witness: {} [{}]", text, show_m(&p.m)), enforce(&[Which::Complexity, Which::Depth], &p.m, false, &|l| run_k(&p, l))).nontrivial(true).class("custom-rule-in-named-fragment"),
         };
-        if ctx.check_case("witness-fragment-rule", c, serde_json::json!({"query": text})) {
-            return;
-        }
+        ctx.check_case("witness-fragment-rule", c, serde_json::json!({"query": text}));
     }
 
     let n = ctx.tier.pick(2_500, 75_000);
@@ -721,7 +717,7 @@ pub fn run(ctx: &mut Ctx) {
             let op = td.doc.ops().next().unwrap();
             let applies = f1_applies(&td.doc, op, &ksch, &td.vars);
             let c = match enforce(&ALL3, &p.m, false, &|l| run_k(&p, l)) {
-                Ok(_) => Case::pass(rendered),
+                Ok(()) => Case::pass(rendered),
                 Err(why) => {
                     // the quirk: rejected under every limit, with the rule's error about the variable
                     let always = [Lim::Complexity(usize::MAX), Lim::Depth(usize::MAX)].iter().all(|l| {
@@ -741,9 +737,7 @@ pub fn run(ctx: &mut Ctx) {
         let text = "query($v0: Int) { items(first: $v0) { id } }";
         let doc = vgql::refparse::parse_executable(text, &vgql::refparse::Opts::default()).expect("witness parses");
         let c = probe(TypedDoc { doc, vars: IndexMap::new(), stats: DocStats::default(), op_name: None });
-        if ctx.check_case("witness-omitted-variable-in-rule", c, serde_json::json!({"query": text, "variables": {}})) {
-            return;
-        }
+        ctx.check_case("witness-omitted-variable-in-rule", c, serde_json::json!({"query": text, "variables": {}}));
         ctx.stream("probe-omitted-variable-in-rule", n / 4, 600, |s| probe(gen_typed_doc(&ksch, s, &pcfg)));
     }
 
